@@ -132,9 +132,7 @@ Record Inv (cats : comp -> option category) (s : state) : Prop := mkInv {
   inv_sub : forall t, In t (st_taken s) -> incl (t_snap t) (st_subs s (t_comp t));
   inv_tnodup : forall t, In t (st_taken s) -> NoDup (t_snap t);
   (* since the fix: only metrics the component's data provides are ever registered ... *)
-  inv_supp : forall c n, In n (st_subs s c) -> exists cat, cats c = Some cat /\ supported cat (n_metric n) = true;
-  (* ... hence no handler is ever in the crashed state *)
-  inv_nocrash : forall c, st_hand s c <> Some HCrashed
+  inv_supp : forall c n, In n (st_subs s c) -> exists cat, cats c = Some cat /\ supported cat (n_metric n) = true
 }.
 
 Lemma inv_init : forall cats, Inv cats init.
@@ -158,8 +156,8 @@ Ltac simp_st := cbn [st_subs st_recv st_hand st_fly st_acc st_taken st_out].
 
 Lemma step_inv : forall cats s e s' o, Inv cats s -> step cats s e = Some (s', o) -> Inv cats s'.
 Proof.
-  intros cats s e s' o HI Hstep. destruct HI as [Hcons Hfly Hsnap Hnd Hmono Hsub Htnd Hsupp Hnc].
-  destruct e as [c n|c|c m|c|]; cbn [step] in Hstep.
+  intros cats s e s' o HI Hstep. destruct HI as [Hcons Hfly Hsnap Hnd Hmono Hsub Htnd Hsupp].
+  destruct e as [c n|c|c m|c| |c|c n|]; cbn [step] in Hstep.
   - (* AddMetric *)
     destruct (cats c) as [cat|] eqn:Ecat; [|injection Hstep as <- <-; constructor; assumption].
     destruct (supported cat (n_metric n)) eqn:Hsup; cbn [negb] in Hstep;
@@ -180,9 +178,6 @@ Proof.
       * rewrite upd_eq in Hin. apply in_app_or in Hin. destruct Hin as [Hin|[<-|[]]]; [apply Hsupp; exact Hin|].
         exists cat. split; assumption.
       * rewrite upd_neq in Hin by exact Hne. apply Hsupp; exact Hin.
-    + intros c0. destruct (Z.eq_dec c0 c) as [->|Hne].
-      * rewrite upd_eq. discriminate.
-      * rewrite upd_neq by exact Hne. apply Hnc.
   - (* HandlerStart *)
     assert (Hgo : forall cat, cats c = Some cat ->
        (if forallb (fun n => supported cat (n_metric n)) (st_subs s c)
@@ -202,10 +197,7 @@ Proof.
         destruct (Z.eq_dec c0 c) as [->|Hne]; [rewrite upd_eq, Er; reflexivity|rewrite upd_neq by exact Hne; reflexivity].
       + intros c0 snap Hh. destruct (Z.eq_dec c0 c) as [->|Hne].
         * rewrite upd_eq in Hh. injection Hh as <-. reflexivity.
-        * rewrite upd_neq in Hh by exact Hne. apply Hsnap; exact Hh.
-      + intros c0. destruct (Z.eq_dec c0 c) as [->|Hne].
-        * rewrite upd_eq. discriminate.
-        * rewrite upd_neq by exact Hne. apply Hnc. }
+        * rewrite upd_neq in Hh by exact Hne. apply Hsnap; exact Hh. }
     destruct (st_hand s c) as [[| |]|]; try discriminate; destruct (cats c) as [cat|] eqn:Ecat; try discriminate;
       apply (Hgo cat eq_refl); exact Hstep.
   - (* ApiMsg *)
@@ -238,6 +230,16 @@ Proof.
     destruct Hfly as [done [Ht Ho]]. exists (done ++ [t]). split.
     + rewrite Ht, <- app_assoc. reflexivity.
     + rewrite Ho, flat_map_app. cbn. rewrite app_nil_r. reflexivity.
+  - (* HandlerFail *)
+    assert (Hgo : Some (mkSt (st_subs s) (st_recv s) (upd (st_hand s) c (Some HCrashed))
+                         (st_fly s) (st_acc s) (st_taken s) (st_out s), @nil out) = Some (s', o) -> Inv cats s').
+    { intros H. injection H as <- <-. constructor; simp_st; try assumption.
+      intros c0 snap Hh. destruct (Z.eq_dec c0 c) as [->|Hne].
+      - rewrite upd_eq in Hh; discriminate.
+      - rewrite upd_neq in Hh by exact Hne. apply Hsnap; exact Hh. }
+    destruct (st_hand s c) as [[| |]|]; try discriminate; apply Hgo; exact Hstep.
+  - (* AddFault *) injection Hstep as <- <-; constructor; assumption.
+  - (* Restart *) injection Hstep as <- <-; constructor; assumption.
 Qed.
 
 Lemma run_inv : forall cats es s s', Inv cats s -> run cats s es = Some s' -> Inv cats s'.
@@ -257,7 +259,7 @@ Lemma conservation : forall cats es s, run cats init es = Some s ->
   forall c, acc_of c (st_acc s) =
             map t_msg (tasks_of c done) ++ map t_msg (tasks_of c (st_fly s)) ++ queue s c.
 Proof.
-  intros cats es s H. destruct (reach_inv _ _ _ H) as [Hcons [done [Ht Ho]] _ _ _ _ _ _ _].
+  intros cats es s H. destruct (reach_inv _ _ _ H) as [Hcons [done [Ht Ho]] _ _ _ _ _ _].
   exists done. split; [exact Ht|]. split; [exact Ho|].
   intros c. rewrite Hcons, Ht, tasks_of_app, map_app, <- app_assoc. reflexivity.
 Qed.
@@ -280,7 +282,7 @@ Lemma exactly_once_in_order : forall cats es s, run cats init es = Some s ->
     map (fun t => sample_of n (t_msg t))
         (filter (fun t => (t_comp t =? c) && mem_name n (t_snap t)) done).
 Proof.
-  intros cats es s H. destruct (reach_inv _ _ _ H) as [_ [done [Ht Ho]] _ _ _ _ Htnd _ _].
+  intros cats es s H. destruct (reach_inv _ _ _ H) as [_ [done [Ht Ho]] _ _ _ _ Htnd _].
   exists done. split; [exact Ht|]. intros c n. rewrite Ho. apply chan_out_flat.
   intros t Hin. apply Htnd. rewrite Ht. apply in_or_app; left; exact Hin.
 Qed.
@@ -299,7 +301,7 @@ Qed.
 (* ------------------------------------------------------------------ monotonicity / existing unaffected *)
 Lemma step_subs_mono : forall cats s e s' o c, step cats s e = Some (s', o) -> incl (st_subs s c) (st_subs s' c).
 Proof.
-  intros cats s e s' o c Hstep. destruct e as [c1 n|c1|c1 m|c1|]; cbn [step] in Hstep.
+  intros cats s e s' o c Hstep. destruct e as [c1 n|c1|c1 m|c1| |c1|c1 n|]; cbn [step] in Hstep.
   - destruct (cats c1) as [cat|]; [|injection Hstep as <- <-; apply incl_refl].
     destruct (negb (supported cat (n_metric n))); [injection Hstep as <- <-; apply incl_refl|].
     destruct (mem_name n (st_subs s c1)); injection Hstep as <- <-; [apply incl_refl|]. cbn.
@@ -310,12 +312,15 @@ Proof.
   - destruct (st_hand s c1) as [[| |]|]; try discriminate. destruct (st_recv s c1) as [[|]|]; try discriminate.
     injection Hstep as <- <-; apply incl_refl.
   - destruct (st_fly s); [discriminate|]. injection Hstep as <- <-; apply incl_refl.
+  - destruct (st_hand s c1) as [[| |]|]; try discriminate; injection Hstep as <- <-; apply incl_refl.
+  - injection Hstep as <- <-; apply incl_refl.
+  - injection Hstep as <- <-; apply incl_refl.
 Qed.
 
 Lemma step_taken : forall cats s e s' o, Inv cats s -> step cats s e = Some (s', o) ->
   st_taken s' = st_taken s \/ exists t, st_taken s' = st_taken s ++ [t] /\ t_snap t = st_subs s (t_comp t).
 Proof.
-  intros cats s e s' o HI Hstep. destruct e as [c1 n|c1|c1 m|c1|].
+  intros cats s e s' o HI Hstep. destruct e as [c1 n|c1|c1 m|c1| |c1|c1 n|].
   - cbn [step] in Hstep. destruct (cats c1) as [cat|]; [|injection Hstep as <- <-; left; reflexivity].
     destruct (negb (supported cat (n_metric n))); [injection Hstep as <- <-; left; reflexivity|].
     destruct (mem_name n (st_subs s c1)); injection Hstep as <- <-; left; reflexivity.
@@ -324,6 +329,9 @@ Proof.
   - cbn [step] in Hstep. destruct (st_recv s c1); injection Hstep as <- <-; left; reflexivity.
   - right. destruct (take_snapshot_current _ _ _ _ _ HI Hstep) as [m [Ht _]]. eexists; split; [exact Ht|reflexivity].
   - cbn [step] in Hstep. destruct (st_fly s); [discriminate|]. injection Hstep as <- <-; left; reflexivity.
+  - cbn [step] in Hstep. destruct (st_hand s c1) as [[| |]|]; try discriminate; injection Hstep as <- <-; left; reflexivity.
+  - cbn [step] in Hstep. injection Hstep as <- <-; left; reflexivity.
+  - cbn [step] in Hstep. injection Hstep as <- <-; left; reflexivity.
 Qed.
 
 Lemma existing_unaffected : forall cats es s s' c n,
@@ -434,8 +442,63 @@ Lemma add_unsupported_noop : forall cats s c n cat,
   cats c = Some cat -> supported cat (n_metric n) = false -> step cats s (AddMetric c n) = Some (s, []).
 Proof. intros cats s c n cat Hc Hs. cbn [step]. rewrite Hc, Hs. reflexivity. Qed.
 
-Lemma never_crashed : forall cats es s c, run cats init es = Some s -> st_hand s c <> Some HCrashed.
-Proof. intros cats es s c H. apply (inv_nocrash cats s (reach_inv _ _ _ H)). Qed.
+(* a handler is in the crashed state only through a fault of the API client *)
+Lemma step_nocrash : forall cats s e s' o, Inv cats s -> is_fault e = false ->
+  (forall c, st_hand s c <> Some HCrashed) -> step cats s e = Some (s', o) ->
+  forall c, st_hand s' c <> Some HCrashed.
+Proof.
+  intros cats s e s' o HI Hnf Hnc Hstep c0.
+  destruct e as [c n|c|c m|c| |c|c n|]; cbn [step] in Hstep; try discriminate Hnf.
+  - destruct (cats c) as [cat|]; [|injection Hstep as <- <-; apply Hnc].
+    destruct (negb (supported cat (n_metric n))); [injection Hstep as <- <-; apply Hnc|].
+    destruct (mem_name n (st_subs s c)); injection Hstep as <- <-; [apply Hnc|]. simp_st.
+    destruct (Z.eq_dec c0 c) as [->|Hne]; [rewrite upd_eq; discriminate|rewrite upd_neq by exact Hne; apply Hnc].
+  - assert (Hall : forall cat, cats c = Some cat -> forallb (fun n => supported cat (n_metric n)) (st_subs s c) = true).
+    { intros cat Ecat. apply forallb_forall. intros n Hin.
+      destruct (inv_supp cats s HI c n Hin) as [cat' [E1 E2]]. congruence. }
+    destruct (st_hand s c) as [[| |]|]; try discriminate; destruct (cats c) as [cat|] eqn:Ecat; try discriminate;
+      rewrite (Hall cat eq_refl) in Hstep; injection Hstep as <- <-; simp_st;
+      (destruct (Z.eq_dec c0 c) as [->|Hne]; [rewrite upd_eq; discriminate|rewrite upd_neq by exact Hne; apply Hnc]).
+  - destruct (st_recv s c); injection Hstep as <- <-; apply Hnc.
+  - destruct (st_hand s c) as [[| |]|]; try discriminate. destruct (st_recv s c) as [[|]|]; try discriminate.
+    injection Hstep as <- <-; apply Hnc.
+  - destruct (st_fly s); [discriminate|]. injection Hstep as <- <-; apply Hnc.
+  - injection Hstep as <- <-; apply Hnc.
+  - injection Hstep as <- <-; apply Hnc.
+Qed.
+
+Lemma run_nocrash : forall cats es s s', Inv cats s -> existsb is_fault es = false ->
+  (forall c, st_hand s c <> Some HCrashed) -> run cats s es = Some s' ->
+  forall c, st_hand s' c <> Some HCrashed.
+Proof.
+  intros cats es; induction es as [|e es IH]; intros s s' HI Hnf Hnc Hr; cbn in Hr.
+  - injection Hr as <-; exact Hnc.
+  - cbn in Hnf. apply orb_false_iff in Hnf. destruct Hnf as [Hf Hfs].
+    destruct (step cats s e) as [[s1 o]|] eqn:Es; [|discriminate].
+    eapply IH; [eapply step_inv; eassumption|exact Hfs| |exact Hr].
+    eapply step_nocrash; eassumption.
+Qed.
+
+Lemma never_crashed : forall cats es s c, run cats init es = Some s -> existsb is_fault es = false ->
+  st_hand s c <> Some HCrashed.
+Proof.
+  intros cats es s c H Hnf. eapply run_nocrash; [apply inv_init|exact Hnf| |exact H].
+  intros c0; cbn; discriminate.
+Qed.
+
+(* faults and restarts leave everything the property talks about untouched *)
+Lemma fault_frame : forall cats s e s' o,
+  (match e with HandlerFail _ | AddFault _ _ | Restart => True | _ => False end) ->
+  step cats s e = Some (s', o) ->
+  o = [] /\ st_subs s' = st_subs s /\ st_recv s' = st_recv s /\ st_fly s' = st_fly s /\ st_out s' = st_out s /\
+  st_taken s' = st_taken s /\ st_acc s' = st_acc s /\
+  (match e with HandlerFail _ => True | _ => s' = s end).
+Proof.
+  intros cats s e s' o He Hstep. destruct e as [c n|c|c m|c| |c|c n|]; try contradiction; cbn [step] in Hstep.
+  - destruct (st_hand s c) as [[| |]|]; try discriminate; injection Hstep as <- <-; simp_st; repeat split; reflexivity.
+  - injection Hstep as <- <-; repeat split; reflexivity.
+  - injection Hstep as <- <-; repeat split; reflexivity.
+Qed.
 
 Lemma handler_start_runs : forall cats es s c s' o, run cats init es = Some s ->
   step cats s (HandlerStart c) = Some (s', o) -> st_hand s' c = Some (HRunning (st_subs s c)).
